@@ -15,7 +15,7 @@ use shuttle::scheduler::{PctScheduler, RandomScheduler};
 use shuttle::{Config, FailurePersistence, MaxSteps, Runner};
 use simcore::driver::{Harness, Tier};
 use simcore::model::{check_against_ref_index, first_diff, kmer_from_bases, probes, transcript};
-use simcore::pipe::base_graph_counts;
+use simcore::pipe::base_graph_for;
 use simcore::rec::{digest_str, Digest, Rec, Violation};
 use simcore::rng::Rng;
 use simcore::spec::{gen_graph_spec, shrink_graph_spec, GraphSpec};
@@ -79,7 +79,7 @@ pub fn build_base<K: Kmer + Send + Sync + 'static>(g: &GraphSpec) -> BaseGraph<K
     let o2 = out.clone();
     let spec = g.clone();
     Runner::new(RandomScheduler::new_from_seed(0, 1), shuttle_config()).run(move || {
-        let b = base_graph_counts::<K>(&spec.reads, spec.stranded, spec.min_count);
+        let b = base_graph_for::<K>(&spec);
         *o2.lock().unwrap() = Some(b);
     });
     let b = out.lock().unwrap().take().expect("graph built");
@@ -208,7 +208,16 @@ impl Harness for C19 {
     }
     fn gen(&self, rng: &mut Rng, tier: Tier) -> Case {
         let big = rng.chance(1, if tier == Tier::Thorough { 20 } else { 60 });
-        let graph = if big { gen_graph_spec(rng, &KTYPES, 40, 400) } else { gen_graph_spec(rng, &KTYPES, 8, 140) };
+        let mut graph = if big { gen_graph_spec(rng, &KTYPES, 40, 400) } else { gen_graph_spec(rng, &KTYPES, 8, 140) };
+        if rng.chance(1, 3) {
+            // free-form node set through the public BaseGraph::add (small even K: palindromic ends are common)
+            if rng.chance(1, 2) {
+                graph.ktype = rng.pick(&["Kmer4", "Kmer6", "Kmer8"]).to_string();
+            }
+            let k = simcore::spec::k_of(&graph.ktype);
+            let n = if big { 200 } else { rng.range(1, 40) };
+            graph.direct_nodes = simcore::spec::gen_direct_nodes(rng, &graph.reads, k, n);
+        }
         Case {
             graph,
             sched: match rng.below(3) {
@@ -272,5 +281,40 @@ impl Harness for C19 {
                "stub": ["rayon (stand-in: seeded item->worker plan on shuttle threads; more permissive than rayon)"],
                "simulated": ["thread schedule (shuttle Random / PCT)", "pool size and work splitting"],
                "limits": ["shuttle treats every memory ordering as SeqCst; Relaxed semantics are covered by engine M (miri) on small graphs"]})
+    }
+}
+
+/// Selftest: a sample of C19 cases under shuttle's UncontrolledNondeterminismCheckScheduler,
+/// which executes every schedule twice and fails if the second execution makes a different
+/// sequence of scheduling-relevant calls (a nondeterminism source the simulator does not own).
+pub fn nondet_selftest(seed: u64, n_cases: u64) -> i32 {
+    use debruijn::kmer::Kmer6;
+    use shuttle::scheduler::UncontrolledNondeterminismCheckScheduler;
+    let h = C19;
+    let mut bad = 0;
+    let mut execs = 0u64;
+    for idx in 0..n_cases {
+        let mut rng = Rng::new(simcore::rng::derive(seed, "c19-nondet", idx));
+        let mut c = h.gen(&mut rng, Tier::Quick);
+        c.graph.ktype = "Kmer6".into();
+        let base = Arc::new(build_base::<Kmer6>(&c.graph));
+        let sh = Arc::new(Mutex::new(Shared::default()));
+        rayon::set_max_workers(c.max_workers);
+        let (b2, s2) = (base.clone(), sh.clone());
+        let r = simcore::driver::guarded(move || {
+            let sched = UncontrolledNondeterminismCheckScheduler::new(RandomScheduler::new_from_seed(c.sched_seed, 3));
+            Runner::new(sched, shuttle_config()).run(move || scenario::<Kmer6>(&b2, &[], &s2));
+        });
+        execs += sh.lock().unwrap().executions;
+        if let Err((loc, msg)) = r {
+            bad += 1;
+            println!("[nondet-selftest] case {}: {} at {}", idx, msg, loc);
+        }
+    }
+    println!("[nondet-selftest] {} cases, {} executions (each schedule run twice), nondeterminism reports: {}", n_cases, execs, bad);
+    if bad > 0 {
+        2
+    } else {
+        0
     }
 }
